@@ -286,6 +286,16 @@ fn check_case(rep: &mut Report, rng: &mut Rng, c: &Case, thread_name: Option<&st
     let pieces = split_pieces(&c.message, rng);
     let mut w = if rng.chance(1, 2) { CapW::short(rng.next_u64()) } else { CapW::new() };
     let enc = JsonEncoder::new();
+    if rng.chance(1, 5) {
+        // a record whose write fails half-way must not leak into the next record encoded on this thread
+        let mut failing = CapW::new();
+        failing.budget = Some(rng.usize_below(40));
+        let _ = trap::catch(|| {
+            enc.encode(&mut failing, &Record::builder().level(log::Level::Error).target("FAILED-RECORD")
+                .args(format_args!("this record must never show up {}", 1)).build())
+        });
+        rep.count("records_preceded_by_a_failed_encode", 1);
+    }
     let t0 = Utc::now();
     let r = trap::catch(|| {
         let p = Pieces(&pieces);
